@@ -53,6 +53,10 @@ pub struct Def {
     /// swallowed by `try`: it must leave nothing behind and take nothing away
     #[serde(default)]
     pub refused_append: bool,
+    /// `1..n | each {..} | to text | .append side.stream`: a byte stream (n lines) piped into
+    /// `.append`; 0 = none
+    #[serde(default)]
+    pub stream_append: u16,
     pub env_bump: bool,
     pub sleep_ms: u8,
     pub suffix: Option<String>,
@@ -64,7 +68,14 @@ pub struct Def {
 pub enum Ev {
     Define { name: u8, def: Def },
     /// `count` calls appended back to back (they overlap when the script sleeps)
-    Calls { name: u8, count: u8, with_content: bool },
+    Calls {
+        name: u8,
+        count: u8,
+        with_content: bool,
+        /// the call frames are appended with ttl ephemeral: a call that arrives is a call
+        #[serde(default)]
+        ephemeral: bool,
+    },
 }
 
 #[derive(Clone, Debug, Serialize, Deserialize)]
@@ -102,18 +113,19 @@ pub fn strategy() -> BoxedStrategy<C19Case> {
             1 => val_out().prop_map(Output::EarlyReturn),
         ],
         prop_oneof![8 => Just(Broken::No), 2 => Just(Broken::RuntimeError), 1 => Just(Broken::BadBuiltinArg), 1 => Just(Broken::StreamIntoAppend), 1 => Just(Broken::Parse), 1 => Just(Broken::NoRun)],
-        (prop_oneof![3 => Just(false), 1 => Just(true)], proptest::bool::weighted(0.15)),
+        (prop_oneof![3 => Just(false), 1 => Just(true)], proptest::bool::weighted(0.15), prop_oneof![8 => Just(0u16), 1 => 1u16..6, 1 => Just(3000u16)]),
         prop_oneof![2 => Just(false), 1 => Just(true)],
         prop_oneof![3 => Just(0u8), 1 => Just(15u8), 1 => Just(40u8)],
         proptest::option::weighted(0.3, proptest::sample::select(vec![".r", ".done", "-x"]).prop_map(|s| s.to_string())),
         prop_oneof![4 => Just(None), 1 => Just(Some(WTtl::Head(2))), 1 => Just(Some(WTtl::Ephemeral)), 1 => Just(Some(WTtl::Time(60_000)))],
         prop_oneof![5 => Just(false), 1 => Just(true)],
     )
-        .prop_map(|(output, broken, (explicit_append, refused_append), env_bump, sleep_ms, suffix, ttl, use_module)| Def {
+        .prop_map(|(output, broken, (explicit_append, refused_append, stream_append), env_bump, sleep_ms, suffix, ttl, use_module)| Def {
             output,
             broken,
             explicit_append,
             refused_append,
+            stream_append,
             env_bump,
             sleep_ms,
             suffix,
@@ -122,7 +134,7 @@ pub fn strategy() -> BoxedStrategy<C19Case> {
         });
     let ev = prop_oneof![
         2 => (0u8..4, def).prop_map(|(name, def)| Ev::Define { name, def }),
-        3 => (0u8..4, 1u8..=4, any::<bool>()).prop_map(|(name, count, with_content)| Ev::Calls { name, count, with_content }),
+        3 => (0u8..4, 1u8..=4, any::<bool>(), proptest::bool::weighted(0.15)).prop_map(|(name, count, with_content, ephemeral)| Ev::Calls { name, count, with_content, ephemeral }),
     ];
     proptest::collection::vec(ev, 1..10)
         .prop_map(|events| C19Case { events })
@@ -165,6 +177,9 @@ fn render(def: &Def) -> String {
     }
     if def.explicit_append {
         s.push_str("    \"side\" | .append side.effect --meta {note: \"x\"} | ignore\n");
+    }
+    if def.stream_append > 0 {
+        s.push_str(&format!("    1..{} | each {{|i| $\"l($i)\"}} | to text | .append side.stream | ignore\n", def.stream_append));
     }
     if def.refused_append {
         s.push_str("    try { \"side\" | .append side.effect --context \"0000000000000000000000001\" | ignore }\n");
@@ -233,6 +248,7 @@ fn run_in(case: &C19Case, nu: &mut Nu) -> Result<CaseInfo, Fail> {
     let mut current: BTreeMap<u8, usize> = BTreeMap::new();
     let mut calls: Vec<CallRec> = Vec::new();
     let mut overlapped = false;
+    let mut ephemeral_calls = false;
     let mut redefine_between_calls = false;
     let mut called: std::collections::BTreeSet<u8> = Default::default();
     for ev in &case.events {
@@ -249,16 +265,25 @@ fn run_in(case: &C19Case, nu: &mut Nu) -> Result<CaseInfo, Fail> {
                     current.insert(*name, defs.len() - 1);
                 }
             }
-            Ev::Calls { name, count, with_content } => {
+            Ev::Calls { name, count, with_content, ephemeral } => {
                 let n = NAMES[*name as usize];
                 for i in 0..*count {
                     let c = format!("input-{i}");
-                    let f = nu.append(
-                        &format!("{n}.call"),
-                        ctx_of(*name),
-                        if *with_content { Some(c.as_bytes()) } else { None },
-                        Some(MetaVal::O(vec![("args".into(), MetaVal::O(vec![("i".into(), MetaVal::I(i as i64))]))])),
+                    let f = crate::hist::must(
+                        "append call",
+                        nu.exec.append(
+                            &fspec(
+                                &format!("{n}.call"),
+                                ctx_of(*name),
+                                Some(MetaVal::O(vec![("args".into(), MetaVal::O(vec![("i".into(), MetaVal::I(i as i64))]))])),
+                                if *ephemeral { Some(WTtl::Ephemeral) } else { None },
+                            ),
+                            if *with_content { Some(c.as_bytes()) } else { None },
+                        ),
                     )?;
+                    if *ephemeral {
+                        ephemeral_calls = true;
+                    }
                     calls.push(CallRec {
                         frame: f,
                         name: *name,
@@ -302,7 +327,7 @@ fn run_in(case: &C19Case, nu: &mut Nu) -> Result<CaseInfo, Fail> {
         let n = NAMES[c.name as usize];
         let mine: Vec<&WFrame> = frames
             .iter()
-            .filter(|w| meta_of(w, "frame_id").as_deref() == Some(&c.frame.id) && w.topic != "side.effect")
+            .filter(|w| meta_of(w, "frame_id").as_deref() == Some(&c.frame.id) && w.topic != "side.effect" && w.topic != "side.stream")
             .collect();
         checks += 1;
         let Some(di) = c.def else {
@@ -337,6 +362,32 @@ fn run_in(case: &C19Case, nu: &mut Nu) -> Result<CaseInfo, Fail> {
             let h = w.hash.clone().ok_or_else(|| cmd("side.effect without content".to_string()))?;
             if nu.content(&h)? != b"side" {
                 return Err(Fail::new(Class::Cas, "side.effect content differs from what the script piped in".to_string()));
+            }
+        }
+        // a byte stream piped into `.append`: one frame per call whose content is every line
+        let streams: Vec<&WFrame> = frames
+            .iter()
+            .filter(|w| w.topic == "side.stream" && meta_of(w, "frame_id").as_deref() == Some(&c.frame.id))
+            .collect();
+        if streams.len() != (def.stream_append > 0) as usize {
+            return Err(cmd(format!("call {} of {n}: {} side.stream frames carry its frame_id; script:\n{}", c.frame.id, streams.len(), render(def))));
+        }
+        for w in &streams {
+            let h = w.hash.clone().ok_or_else(|| cmd("side.stream without content".to_string()))?;
+            let got = nu.content(&h)?;
+            let want: String = (1..=def.stream_append).map(|i| format!("l{i}\n")).collect();
+            if got != want.as_bytes() {
+                return Err(Fail::new(
+                    Class::Cas,
+                    format!(
+                        "call {} of {n}: a {}-line byte stream piped into `.append` was stored as {} bytes (ending {:?}), {} bytes were piped in",
+                        c.frame.id,
+                        def.stream_append,
+                        got.len(),
+                        String::from_utf8_lossy(&got[got.len().saturating_sub(12)..]),
+                        want.len()
+                    ),
+                ));
             }
         }
         let suffix = def.suffix.clone().unwrap_or(".recv".into());
@@ -495,6 +546,8 @@ fn run_in(case: &C19Case, nu: &mut Nu) -> Result<CaseInfo, Fail> {
         (redefine_between_calls, "redefine-between-calls"),
         (defs.iter().any(|d| d.1.broken != Broken::No), "broken-definition"),
         (defs.iter().any(|d| d.1.refused_append), "refused-explicit-append"),
+        (ephemeral_calls, "ephemeral-call-frames"),
+        (defs.iter().any(|d| d.1.stream_append > 0), "byte-stream-piped-into-append"),
         (calls.iter().any(|c| c.def.is_none()), "call-of-undefined"),
         (defs.iter().any(|d| d.1.env_bump), "env-leak-probe"),
     ] {
